@@ -1,8 +1,11 @@
 (* C13 -- several sensitive / control columns group rows by tuple equality, collision-free.
    Only statements, `exact`, and Print Assumptions.  The theorems are about the escape chain
-   and separator REGENERATED from /repo (FLGen.Gen_merge) on every run. *)
+   and separator REGENERATED from /repo (FLGen.Gen_merge) on every run; `eq_refl` below is a
+   proof of `chain_ok Gen_merge.steps Gen_merge.sep = true`, i.e. the kernel checks by computation
+   that the regenerated chain is [(e,[e;e]); (s,[e;s])] with separator [s] and e <> s (for the
+   current source e = backslash, s = comma; any other pair of distinct characters also passes). *)
 From Coq Require Import ZArith List.
-From FL Require Import Merge Merge_proofs.
+From FL Require Import Merge Merge_proofs MergeGen.
 From FLGen Require Gen_merge.
 Import ListNotations.
 
@@ -11,12 +14,14 @@ Definition merge_src : list str -> str := merge_with Gen_merge.steps Gen_merge.s
 
 Theorem C13_merge_injective :
   forall r r' : list str, r <> [] -> r' <> [] -> merge_src r = merge_src r' -> r = r'.
-Proof. exact merge_injective_std. Qed.
+Proof. exact (merge_injective_of_chain_ok Gen_merge.steps Gen_merge.sep eq_refl). Qed.
 Print Assumptions C13_merge_injective.
 
+(* the decoder is parametrised by the escape character and the separator of the source *)
 Theorem C13_merge_decodable :
-  forall r : list str, r <> [] -> unmerge (merge_src r) = r.
-Proof. exact unmerge_merge. Qed.
+  forall r : list str, r <> [] ->
+  unmergep (chain_esc Gen_merge.steps) (chain_sep Gen_merge.sep) (merge_src r) = r.
+Proof. exact (unmerge_of_chain_ok Gen_merge.steps Gen_merge.sep eq_refl). Qed.
 Print Assumptions C13_merge_decodable.
 
 (* rows fall in the same merged group iff they agree in every column: the partition induced by
@@ -25,10 +30,11 @@ Print Assumptions C13_merge_decodable.
 Theorem C13_merge_partition :
   forall rows : list (list str), (forall r, In r rows -> r <> []) ->
   partition_ids str_eqb (map merge_src rows) = partition_ids row_eqb rows.
-Proof. exact merged_partition_is_tuple_partition. Qed.
+Proof. exact (partition_of_chain_ok Gen_merge.steps Gen_merge.sep eq_refl). Qed.
 Print Assumptions C13_merge_partition.
 
 (* non-vacuity: premises are satisfiable on values containing separator, backslash, empty string *)
 Example C13_example :
-  let r := [[97; 44]; [92]; []] in r <> [] /\ unmerge (merge_src r) = r.
+  let r := [[97; 44]; [92]; []] in r <> [] /\
+  unmergep (chain_esc Gen_merge.steps) (chain_sep Gen_merge.sep) (merge_src r) = r.
 Proof. split; [discriminate | vm_compute; reflexivity]. Qed.
